@@ -948,7 +948,9 @@ def main():
     for n in list(rep["translated"]) + list(failed):
         if expected and n not in expected: dev.append("UNTRANSLATABLE T12: %s: function of the source without a model term to tie it to" % n)
     rep["deviations"] = dev
-    json.dump(rep, open(report or os.path.join(out, "t12_report.json"), "w"), indent=1)
+    rpath = report or os.path.join(out, "t12_report.json")
+    with open(rpath + ".tmp%d" % os.getpid(), "w") as f: json.dump(rep, f, indent=1)
+    os.replace(rpath + ".tmp%d" % os.getpid(), rpath)
     print("T12: %d parser functions translated, %d outside the subset" % (len(done), len(failed)))
     for d in dev: print(d)
     if "--verbose" in args:
